@@ -74,7 +74,7 @@ func mkClientOn(bind uint16, ip string, calls []call, which int) uhppote.IUHPPOT
 		devices = append(devices, uhppote.Device{DeviceID: ctrls[c.ctrl].serial, Address: types.ControllerAddrFrom(netip.MustParseAddr(ctrls[c.ctrl].ip), 60000), Protocol: c.path})
 	}
 	b := types.BindAddr{}
-	if bind != 0 {
+	if bind != 0 || ip != "0.0.0.0" {
 		b = types.BindAddrFrom(netip.MustParseAddr(ip), bind)
 	}
 	return uhppote.NewUHPPOTE(b, types.BroadcastAddrFrom(netip.MustParseAddr("192.168.1.255"), 60000), types.ListenAddr{}, T, devices, false)
@@ -96,7 +96,7 @@ func argsFor(op string, k int) spec.Args {
 
 func raceKey(r string) string {
 	// "write/read replies@UT0311.go:73 written at UT0311.go:86 <-> replies@UT0311.go:73 read at UT0311.go:96"
-	m := regexp.MustCompile(`(\w+)@([\w.]+):\d+`).FindStringSubmatch(r)
+	m := regexp.MustCompile(`(\w+)@([\w.]+\.go)`).FindStringSubmatch(r)
 	if m == nil {
 		return "race/unknown"
 	}
@@ -187,6 +187,15 @@ func callScenarioX(name string, bind uint16, calls []call, bound int, discovery 
 			for _, p := range vs.Net().Packets {
 				if bytes.Equal(p.Data, req) && (p.Proto == "udp" || p.Proto == "tcp") {
 					sent = p.At
+					// the request must leave from its own client's bind address
+					wantIP := "0.0.0.0"
+					if splitBind && c.client == 1 {
+						wantIP = splitBindIP
+					}
+					src := netip.MustParseAddrPort(p.Src)
+					if src.Addr().String() != wantIP || (bind != 0 && src.Port() != bind) {
+						viols = append(viols, e1.Viol{Key: "wrong-source-address/" + c.path + "/" + fixed, What: fmt.Sprintf("call %d (%s) left from %s; its client is bound to %s:%d", i, c.op, p.Src, wantIP, bind)})
+					}
 					break
 				}
 			}
@@ -366,8 +375,8 @@ func main() {
 										}
 										name := fmt.Sprintf("2calls/bind=%d/clients=%d/same=%v/%s+%s/%s:%v+%s:%v@%v", bind, nclients, same, pr[0], pr[1], p0, d0, p1, d1, off)
 										scenarios = append(scenarios, callScenario(name, bind, calls, bound, false))
-										if bind != 0 && nclients == 2 && pi == 0 && off == 0 {
-											// same fixed port, wildcard vs specific local address
+										if nclients == 2 && pi == 0 && off == 0 {
+											// same bind port (fixed or 0), wildcard vs specific local address
 											scenarios = append(scenarios, callScenarioX(name+"/split-bind-address", bind, calls, bound, false, true))
 										}
 									}
